@@ -115,6 +115,7 @@ package gpbft
 //@   requires sumPowDef(p)
 //@   ensures forall(i, 0, len(p), p[i].Power > 0) ==> err == nil
 //@   ensures err == nil ==> len(scaled) == len(p) && 0 <= total && total <= 65535
+//@   ensures err == nil ==> forall(i, 0, len(p), 0 <= scaled[i] && scaled[i] <= 65535, trigger(scaled[i]))
 //@   ensures err == nil ==> forall(i, 0, len(p), scaledOK(scaled[i], p[i].Power, sumPow(p, len(p))), trigger(scaled[i]))
 //@   nooverflow
 //@   loop 1
@@ -155,3 +156,9 @@ package gpbft
 //@   assume T > 0 && scaledOK(s1, p1, T) && scaledOK(s2, p2, T)
 //@   assert[order_preserving] p1 <= p2 ==> s1 <= s2
 //@   assert[floor_is_unique] p1 == p2 ==> s1 == s2
+
+// ---- sums of scaled power over the set bits of a signer bit field (shared by sim and certs) ----
+//@ spec func ssum(sp []int64, bf bitfield.BitField, n mathint) mathint
+//@ pred ssumDef(sp []int64, bf bitfield.BitField) = ssum(sp, bf, 0) == 0
+//@     && forall(k, 0, bfCount(bf), ssum(sp, bf, k+1) == ssum(sp, bf, k) + sp[bfBit(bf, k)], trigger(bfBit(bf, k)))
+
